@@ -133,7 +133,7 @@ def make_extra(con, name):
 def cases(tier, seed):
     rnd = random.Random(f"C09/{tier}/{seed}")
     # plain installations
-    n = 120 if tier == "quick" else 6000
+    n = 120 if tier == "quick" else 40000
     for i in range(n):
         yield {"gen": rnd.choice((4, 5)), "seed": rnd.randrange(1 << 30), "extras": {},
                "seg": i % 3, "silent": None, "lat": 0.0}
@@ -145,7 +145,7 @@ def cases(tier, seed):
                     yield {"gen": gen, "seed": rnd.randrange(1 << 30), "extras": {step: [ex]},
                            "seg": seg, "silent": None, "lat": 0.0}
     # random multi insertions
-    m = 150 if tier == "quick" else 8000
+    m = 150 if tier == "quick" else 50000
     for i in range(m):
         ex = {}
         for _ in range(rnd.randint(2, 6)):
